@@ -21,6 +21,18 @@ from __future__ import annotations
 from . import tables as T
 
 
+def _free_variables(s):
+    tn = type(s).__name__
+    if tn == 'Quantified':
+        return _free_variables(s.sentence) - {s.variable}
+    if tn == 'Operated':
+        out = set()
+        for x in s.operands:
+            out |= _free_variables(x)
+        return out
+    return set(s.variables)
+
+
 class Evaluator:
 
     def __init__(self, logic_name: str, interp: dict, tables=None):
@@ -49,8 +61,9 @@ class Evaluator:
     def value(self, s, w=0, env=None):
         I = self.I
         if self.opaque(s):
-            if s.variables:
-                inst = tuple((tuple(v.spec), (env or {}).get(v)) for v in sorted(s.variables))
+            fv = _free_variables(s)
+            if fv:
+                inst = tuple((tuple(v.spec), (env or {}).get(v)) for v in sorted(fv))
                 return I.get('O', {}).get((s.ident, inst, w), self.un)
             return I.get('O', {}).get((s.ident, w), self.un)
         tn = type(s).__name__
